@@ -145,7 +145,7 @@ class Run:
         ns = {'__events__': {e: e for e in evs}, 'ix': ix, 'evs': frozenset(evs)}
 
         def make(ev):
-            def cb(self, *args):
+            def cb(self, *args, **kwargs):
                 run.on_cb(self, ix, ev, args)
             cb.__name__ = ev
             return cb
@@ -313,15 +313,19 @@ class Run:
         start = [i for i in range(self.n) if self.registered[i] and self.alive(i) and ev in self.classes[i].evs]
         self.frame = {'ev': ev, 'calls': [], 'killed': set()}
         try:
+            # every third dispatch carries keyword arguments as well
+            kw = {'frame': self.step_ix, 'tag': None} if (evsel + psel) % 3 == 0 else {}
+            if kw:
+                self.flags['dispatch_with_keyword_arguments'] += 1
             if deferred:
                 self.d.dispatch_enabled = False
-                self.d.dispatch(ev, self.step_ix)
+                self.d.dispatch(ev, self.step_ix, **kw)
                 if self.frame['calls']:
                     self.viol('callback_while_disabled', event=ev)
                 self.flags['deferred_dispatch'] += 1
                 self.d.dispatch_enabled = True
             else:
-                self.d.dispatch(ev, self.step_ix)
+                self.d.dispatch(ev, self.step_ix, **kw)
         except PropertyViolation:
             raise
         except Exception as exc:
